@@ -520,11 +520,34 @@ func scenC16(w *vsim.World, spec *vsim.Spec) {
 		}
 		return true
 	}
-	end = time.Now().Add(20*time.Minute + 30*s.k.PollInterval)
-	s.drive(false, func() bool { return unsatDone() || time.Now().After(end) })
-	if w.Failed() || w.Truncated() {
-		return
+	// Bound, per container: counted from the later of "faults stopped" and the container's own arrival
+	// (containers keep arriving during the quiet phase), and generous for queues that are polled one
+	// container per page over a slow API (a seed-5 thorough run raised a false alarm about a container
+	// that had arrived seconds before a bound counted from the start of the quiet phase only).
+	quietStart := time.Now()
+	bound := func() time.Duration {
+		return 20*time.Minute + 30*s.k.PollInterval + time.Duration(len(s.api.uuids)+s.toArrive)*9*time.Second
 	}
+	dueAt := func(ac *apiCtr) time.Time {
+		t := quietStart
+		if ac.c.CreatedAt.After(t) {
+			t = ac.c.CreatedAt
+		}
+		return t.Add(bound())
+	}
+	allDue := func() bool {
+		if s.toArrive > 0 {
+			return false
+		}
+		for _, u := range s.api.uuids {
+			if ac := s.api.ctrs[u]; ac.unsat && !isFinal(ac.c.State) && ac.c.Priority > 0 && time.Now().Before(dueAt(ac)) {
+				return false
+			}
+		}
+		return true
+	}
+	hardEnd := time.Now().Add(12 * time.Hour)
+	s.drive(false, func() bool { return unsatDone() || allDue() || time.Now().After(hardEnd) })
 	for _, u := range s.api.uuids {
 		ac := s.api.ctrs[u]
 		if !ac.unsat {
@@ -537,8 +560,12 @@ func scenC16(w *vsim.World, spec *vsim.Spec) {
 		if ac.c.Priority == 0 || ac.userGone {
 			continue
 		}
+		if ac.c.State != arvados.ContainerStateCancelled && time.Now().Before(dueAt(ac)) {
+			w.Probe("unsatisfiable-container-too-young-to-judge")
+			continue
+		}
 		if ac.c.State != arvados.ContainerStateCancelled {
-			s.viol("C16", "unsatisfiable-container-not-cancelled", "", "container %s (%s) is %s %s after the faults stopped; history: %s", u, describeCtr(&ac.c), ac.c.State, time.Since(s.lastFault).Round(time.Second), strings.Join(ac.hist, ", "))
+			s.viol("C16", "unsatisfiable-container-not-cancelled", "", "container %s (%s) is %s %s after the faults stopped and %s after it arrived (bound %s); history: %s", u, describeCtr(&ac.c), ac.c.State, time.Since(quietStart).Round(time.Second), time.Since(ac.c.CreatedAt).Round(time.Second), bound(), strings.Join(ac.hist, ", "))
 		} else if txt, _ := ac.c.RuntimeStatus["error"].(string); !strings.Contains(txt, "not satisfiable") && !ac.cancelledByUser() {
 			s.viol("C16", "unsatisfiable-container-cancelled-without-error-text", "", "container %s runtime_status=%v history: %s", u, ac.c.RuntimeStatus, strings.Join(ac.hist, ", "))
 		}
